@@ -39,6 +39,14 @@ def regenerate_for(pid):
     for ex in USES.get(pid, []):
         changed = EXTRACTORS[ex]()
         notes.append("%s%s" % (ex, " (changed)" if changed else ""))
+    # the shared runner links every model, so the other tables must exist too; a failure of an
+    # extractor that this property does not use is not this property's alarm (its own check reports it)
+    for ex in sorted(EXTRACTORS):
+        if ex not in USES.get(pid, []):
+            try:
+                EXTRACTORS[ex]()
+            except Exception as e:  # noqa
+                core.log("note: extractor %s (not used by %s) failed: %s" % (ex, pid, str(e)[:200]))
     return ", ".join(notes) if notes else "no regenerated table for this property"
 
 
